@@ -437,8 +437,11 @@ def replay(oid, kwargs, model, data):
             running.empty()
             running.pixel.array = running.pixel.array + 1.0
             load_detector(running, filename=path)
-        bad = {b: [getattr(running, "_" + b)._array.tolist(), getattr(stored, "_" + b)._array.tolist()] for b in ("photon", "pixel", "signal")
-               if not np.array_equal(getattr(running, "_" + b)._array, getattr(stored, "_" + b)._array)}
+        def _lst(a):
+            return None if a is None else np.asarray(a).tolist()
+
+        bad = {b: [_lst(getattr(running, "_" + b)._array), _lst(getattr(stored, "_" + b)._array)] for b in ("photon", "pixel", "signal")
+               if getattr(running, "_" + b)._array is None or not np.array_equal(getattr(running, "_" + b)._array, getattr(stored, "_" + b)._array)}
         return bool(bad), {"running_detector_after_load_vs_file": bad}
     finally:
         try:
